@@ -23,7 +23,9 @@ from harness import core
 
 PROP = 'C06'
 MODULE = 'Props.C06'
-THEOREMS = ['C06_dump_on_every_outcome', 'C06_flush_before_dump_would_lose_results', 'C06_content',
+THEOREMS = ['C06_dump_on_every_outcome', 'C06_flush_before_dump_would_lose_results',
+            'C06_final_dump_with_periodic_dumps', 'C06_wrapper_windows_transparent',
+            'C06_unwindowed_segment_would_be_lost', 'C06_content',
             'C06_content_closed_stream', 'C06_content_nonvacuous', 'C06_explicit_atexit_partial',
             'C06_explicit_stdout_unusable_refuted', 'C06_explicit_nonvacuous']
 LEVEL = 'proof'
@@ -31,6 +33,7 @@ LEVEL = 'proof'
 KINDS = ['none', 'exit', 'kbd', 'exc']
 KCODE = {'none': 0, 'exit': 1, 'kbd': 2, 'exc': 3}
 MODES = ['l', 'lp', 'b', 'plain', 'lm', 'pm', 'explicit']
+# 'li' = kernprof -l -i 1 with a periodic dump forced while the outermost profiled call is running
 TICK = 100
 # how the program leaves its standard streams when it ends
 OUTS = ['ok', 'none', 'closed', 'unwritable', 'errnone']
@@ -40,6 +43,8 @@ F_EXPL = 'C06-explicit-show-needs-stdout'
 HEADER = '''import sys
 K = int(sys.argv[1]); KIND = sys.argv[2]; DECO = sys.argv[3]; OUT = sys.argv[4]
 SHOWAT = int(sys.argv[5]) if len(sys.argv) > 5 else 0     # explicit mode: an intermediate profile.show() at that statement
+WAITAT = int(sys.argv[6]) if len(sys.argv) > 6 else 0     # kernprof -i: wait at that statement until the timer has dumped
+WAITFILE = sys.argv[7] if len(sys.argv) > 7 else ''
 LEAVE = """
 if OUT == 'none':
     sys.stdout = None
@@ -60,9 +65,21 @@ else:
 _n = 0
 
 
+def _wait():
+    import os, time
+    t0 = time.time()
+    seen = False
+    while WAITFILE and time.time() - t0 < 30 and not seen:
+        seen = os.path.exists(WAITFILE) and os.path.getsize(WAITFILE) > 0
+        time.sleep(0.01)
+    time.sleep(0.2 if WAITFILE else 0)
+    print('WAITED', seen, flush=True)
+
+
 def tick(v=0):
     global _n
     _n += 1
+    if _n == WAITAT: _wait()
     if _n == SHOWAT and DECO == 'explicit': deco.show()
     if _n == K:
         exec(LEAVE, globals())
@@ -116,6 +133,32 @@ def gen_block(rnd, i, nfun, ind, budget, depth, fin):
     return out
 
 
+def gen_program_g(rnd):
+    """a decorated GENERATOR with clean-up code, consumed by a for loop in a function that is not
+    decorated: when the program is terminated inside the loop body the abandoned generator is closed
+    during the unwinding and its clean-up lines run before the results are written"""
+    n = rnd.randrange(2, 4)
+    lines = HEADER.splitlines()
+    lines += ['', '', 'def f0(n):', '    t = tick(0)', '    for v in f1(tick(n)):', '        t = tick(t + v)']
+    if rnd.random() < 0.7:
+        lines += ['        if tick(t) %% %d:' % rnd.randrange(2, 4), '            t = tick(f2(t % 3))']
+    else:
+        lines += ['        t = tick(f2(t % 3))']
+    lines += ['    return tick(t)']
+    lines += ['', '', '@deco', 'def f1(n):', '    x = tick(0)']
+    variant = rnd.choice(['finally', 'genexit', 'nested'])
+    lines += ['    try:', '        for i in range(n):', '            x = tick(x + i)', '            yield tick(x)']
+    if variant == 'finally':
+        lines += ['    finally:', '        x = tick(x + 1)', '        x = tick(x + 2)']
+    elif variant == 'genexit':
+        lines += ['    except GeneratorExit:', '        x = tick(x + 1)', '        raise', '    finally:', '        x = tick(x + 2)']
+    else:
+        lines += ['    finally:', '        try:', '            x = tick(x + 1)', '        finally:', '            x = tick(f2(x % 3))']
+    lines += ['', '', '@deco', 'def f2(x):', '    x = tick(x + %d)' % rnd.randrange(1, 4), '    return tick(x)']
+    lines += ['', '', 'f0(%d)' % n, "print('END', _n)", 'exec(LEAVE, globals())']
+    return '\n'.join(lines) + '\n'
+
+
 def gen_program(rnd, nfun, budget, fin):
     lines = HEADER.splitlines()
     for i in range(nfun):
@@ -166,18 +209,22 @@ def fid(name):
 
 
 def conv(events):
-    return [(e[0], fid(e[1])) + ((e[2],) if e[0] == 'l' else ()) for e in events]
+    """events of the program's functions f<i> and tick (helpers like _wait are not part of the program)"""
+    return [(e[0], fid(e[1])) + ((e[2],) if e[0] == 'l' else ()) for e in events
+            if e[1] == 'tick' or re.match(r'f\d+$', e[1])]
 
 
 ENDED = {'none': 'return', 'exit': 'exit:3', 'kbd': 'kbd', 'exc': 'exc:ValueError'}
 
 
-def mode_cmd(mode, prog, k, kind, out='ok', showat=0):
+def mode_cmd(mode, prog, k, kind, out='ok', showat=0, waitat=0):
     f, mod = prog['file'], prog['file'][:-3]
     tail = [str(k), kind]
     kp = [core.PY, '-m', 'kernprof']
     if mode == 'l':
         return kp + ['-l', f] + tail + ['builtin', out], f + '.lprof', {}
+    if mode == 'li':
+        return kp + ['-l', '-i', '1', f] + tail + ['builtin', out, '0', str(waitat), f + '.lprof'], f + '.lprof', {}
     if mode == 'lp':
         return kp + ['-l', '-p', f, f] + tail + ['nodeco', out], f + '.lprof', {}
     if mode == 'b':
@@ -199,7 +246,7 @@ def run_case(impl, base, idx, c, progs):
     os.makedirs(d)
     with open(os.path.join(d, prog['file']), 'w') as fh:
         fh.write(prog['text'])
-    cmd, outfile, extra = mode_cmd(c['mode'], prog, c['k'], c['kind'], c.get('out', 'ok'), c.get('showat', 0))
+    cmd, outfile, extra = mode_cmd(c['mode'], prog, c['k'], c['kind'], c.get('out', 'ok'), c.get('showat', 0), c.get('waitat', 0))
     env = core.impl_env(impl, **extra)
     r = sub(cmd, d, env)
     ref = None
@@ -210,8 +257,9 @@ def run_case(impl, base, idx, c, progs):
 
 
 def regset(mode, prog):
-    deco = list(range(prog['nfun']))
-    return deco if mode in ('l', 'lm', 'explicit') else deco + [TICK]
+    if mode in ('l', 'li', 'lm', 'explicit'):
+        return list(prog['deco'])
+    return list(range(prog['nfun'])) + [TICK]
 
 
 def expected_counts(mode, prog, ex):
@@ -232,7 +280,8 @@ def impl_counts(mode, prog, loaded):
         if ent[0] != prog['file']:
             continue
         if ent[2] not in names:
-            if not ent[2].startswith('<'):
+            has_data = bool(ent[3]) if loaded['kind'] == 'prof' else any(h for _, h in ent[3])
+            if not ent[2].startswith('<') and has_data:
                 extra.append(ent[2])
             continue
         if loaded['kind'] == 'prof':
@@ -282,6 +331,8 @@ def analyse(res_case, loaded, prog, ex, ended):
             fails.append('explicit mode printed no report on stdout')
         if res_case['ref'] and r['rc'] != res_case['ref']['rc']:
             fails.append('exit status %r differs from the unprofiled run %r' % (r['rc'], res_case['ref']['rc']))
+    if c.get('waitat') and 'WAITED True' not in r['out']:
+        fails.append(('INFRA: the periodic dump was not seen by the program: %r' % r['out'][-200:], 'infra'))
     if c['kind'] == 'none' and ('END %d' % prog['N']) not in r['out']:
         fails.append('the program did not run to its end: %r' % r['out'][-200:])
     fails = [f if isinstance(f, tuple) else (f, None) for f in fails]
@@ -337,7 +388,7 @@ def make_programs(rnd, tier, base):
     for pi, (nfun, budget, fin) in enumerate(specs):
         for attempt in range(200):
             text = gen_program(rnd, nfun, budget, fin)
-            prog = dict(name='p%d' % pi, file='progc06_%d.py' % pi, text=text, nfun=nfun, fin=fin)
+            prog = dict(name='p%d' % pi, file='progc06_%d.py' % pi, text=text, nfun=nfun, fin=fin, deco=list(range(nfun)), gen=False)
             o = oracle(base, prog, 0, 'none')
             full = conv(o['events'])
             n = sum(1 for e in full if e == ('c', TICK))
@@ -347,6 +398,13 @@ def make_programs(rnd, tier, base):
                 break
         else:
             raise RuntimeError('no program of the requested size found')
+    for gi in range(1 if tier == 'quick' else 3):
+        pi = len(progs)
+        prog = dict(name='g%d' % gi, file='progc06_%d.py' % pi, text=gen_program_g(rnd), nfun=3, fin=True, deco=[1, 2], gen=True)
+        o = oracle(base, prog, 0, 'none')
+        full = conv(o['events'])
+        prog.update(N=sum(1 for e in full if e == ('c', TICK)), full=full)
+        progs.append(prog)
     return progs
 
 
@@ -354,8 +412,10 @@ def make_cases(rnd, tier, progs):
     cases = []
     for pi, prog in enumerate(progs):
         ks = list(range(1, prog['N'] + 1))
+        # a generator program's consumer is deliberately not decorated: -b would leave its statements outside cProfile
+        pmodes = [m for m in MODES if not (prog['gen'] and m == 'b')]
         if tier == 'thorough':
-            for mode in MODES:
+            for mode in pmodes:
                 cases.append(dict(p=pi, k=0, kind='none', mode=mode))
                 for k in ks:
                     for kind in KINDS[1:]:
@@ -365,7 +425,7 @@ def make_cases(rnd, tier, progs):
             for k in ks:
                 for kind in KINDS[1:]:
                     cases.append(dict(p=pi, k=k, kind=kind, mode='l'))
-            for mode in MODES[1:]:
+            for mode in pmodes[1:]:
                 cases.append(dict(p=pi, k=0, kind='none', mode=mode))
                 for kind in KINDS[1:]:
                     cases.append(dict(p=pi, k=rnd.choice(ks), kind=kind, mode=mode))
@@ -373,8 +433,16 @@ def make_cases(rnd, tier, progs):
         for kind in KINDS:
             k = 0 if kind == 'none' else rnd.choice([x for x in ks if x >= 4])
             cases.append(dict(p=pi, k=k, kind=kind, mode='explicit', showat=max(1, (k or prog['N']) // 2)))
+        # kernprof -l -i 1: the program waits inside its outermost profiled call until the timer thread has
+        # dumped, carries on and ends; the file left behind must be the final state, not the periodic one
+        if not prog['gen']:
+            for kind in KINDS:
+                for _ in range(1 if tier == 'quick' else 3):
+                    waitat = rnd.randrange(2, prog['N'] - 3)
+                    k = 0 if kind == 'none' else rnd.randrange(waitat + 1, prog['N'] + 1)
+                    cases.append(dict(p=pi, k=k, kind=kind, mode='li', waitat=waitat))
         # the program ends with its standard streams closed / replaced
-        for mode in MODES:
+        for mode in pmodes:
             for out in OUTS[1:]:
                 picks = [(rnd.choice(KINDS), rnd.choice(ks))] if tier == 'quick' else \
                     [(kind, rnd.choice(ks)) for kind in KINDS for _ in range(2)]
@@ -437,6 +505,9 @@ def run(tier, seed):
         fails, obs = analyse(r, ld, prog, ex, None)
         obs_all.append(obs)
         for why, fid_ in fails:
+            if fid_ == 'infra':
+                res.infra_errors.append('%r: %s' % (c, why))
+                continue
             py_fail.add(i)
             res.spec_fails.append(dict(case=dict(c, seed=seed, tier=tier, program=prog['text']), impl=brief(r, obs), why=why, finding=fid_))
         if r['r']['rc'] == 'timeout':
@@ -460,6 +531,15 @@ def run(tier, seed):
                         exdefs[key] = 'EX_%d_%s_%s' % key
                         body += 'Definition %s : list pev := %s.\n' % (exdefs[key], coq_evs(ex))
                     m = -1 if prog['fin'] else common_prefix(strip(ex), strip(prog['full']))
+                    tickpos = -1
+                    if c.get('waitat'):
+                        seen = 0
+                        for j, e in enumerate(ex):
+                            if e == ('c', TICK):
+                                seen += 1
+                                if seen == c['waitat']:
+                                    tickpos = j + 1
+                                    break
                     o = obs_all[i]
                     rc = o['rc'] if isinstance(o['rc'], int) else -99
                     regl = '[' + '; '.join(str(x) for x in regset(c['mode'], prog)) + ']%Z'
@@ -468,8 +548,8 @@ def run(tier, seed):
                             exdefs[key], m, KCODE[c['kind']], OUTCODE[key[2]], regl, coq_hits(o['got']), o['dumps']))
                     else:
                         cprof = c['mode'] in ('b', 'plain', 'pm')
-                        rowtxt.append('(kern_case_ok 100 FULL %s (%d)%%Z %d %d %s %s %s %s %s (%d)%%Z %d)' % (
-                            exdefs[key], m, KCODE[c['kind']], OUTCODE[key[2]], regl, core.coq_bool(c['mode'] in ('plain', 'pm')),
+                        rowtxt.append('(kern_case_ok 100 FULL %s (%d)%%Z %d %d (%d)%%Z %s %s %s %s %s (%d)%%Z %d)' % (
+                            exdefs[key], m, KCODE[c['kind']], OUTCODE[key[2]], tickpos, regl, core.coq_bool(c['mode'] in ('plain', 'pm')),
                             core.coq_bool(cprof), coq_hits({} if cprof else o['got']), coq_calls(o['got'] if cprof else {}),
                             rc, o['dumps']))
                 body += 'Definition rows : list (bool * bool * bool) := [\n' + ';\n'.join(rowtxt) + '].\n'
@@ -538,14 +618,16 @@ def run(tier, seed):
         scope=('every K x kind x mode for %d programs' % len(progs)) if tier == 'thorough' else
               'every K x {exit,kbd,exc} for 2 programs in mode -l, one K per other (mode, kind), normal return in every mode',
         programs=[dict(name=p['name'], functions=p['nfun'], statements_executed=p['N'], events=len(p['full']),
-                       has_finally=p['fin']) for p in progs],
+                       has_finally=p['fin'], generator_with_cleanup=p['gen']) for p in progs],
         mode_kind_histogram={'%s/%s' % k: v for k, v in sorted(hist.items())},
         mode_stdout_state_histogram={'%s/%s' % k: v for k, v in sorted(outhist.items())},
         hypothesis_holds_on=dict(C06_content=sum(1 for r in rs if not progs[r['c']['p']]['fin']),
                                  C06_content_closed_stream=len(rs),
                                  C06_dump_on_every_outcome=sum(1 for r in rs if r['c']['mode'] != 'explicit'),
                                  C06_explicit_atexit_partial=sum(1 for r in rs if r['c']['mode'] == 'explicit' and OUTCODE[r['c'].get('out', 'ok')] == 0),
-                                 stdout_unusable_at_end=sum(1 for r in rs if OUTCODE[r['c'].get('out', 'ok')] != 0)),
+                                 stdout_unusable_at_end=sum(1 for r in rs if OUTCODE[r['c'].get('out', 'ok')] != 0),
+                                 C06_final_dump_with_periodic_dumps=sum(1 for r in rs if r['c']['mode'] == 'li'),
+                                 C06_wrapper_windows_transparent_generator_programs=sum(1 for r in rs if progs[r['c']['p']]['gen'])),
         samples=[dict(case=rs[i]['c'], impl=brief(rs[i], obs_all[i])) for i in (0, len(rs) // 2, len(rs) - 1)],
         translated=['line_profiler/explicit_profiler.py::GlobalProfiler methods -> Gen/GlobalProfiler.v (C06_explicit_atexit)'],
         trusted_base_extra=[
@@ -572,10 +654,12 @@ def replay(path):
     try:
         prog = dict(name='p0', file='progc06_0.py', text=c['program'],
                     nfun=len(re.findall(r'^def f\d+\(', c['program'], flags=re.M)), fin='finally' in c['program'])
+        prog['deco'] = [int(x) for x in re.findall(r'^@deco\ndef f(\d+)\(', c['program'], flags=re.M)]
+        prog['gen'] = 'yield' in c['program']
         o = oracle(base, prog, 0, 'none')
         prog['full'] = conv(o['events'])
         prog['N'] = sum(1 for e in prog['full'] if e == ('c', TICK))
-        case = dict(p=0, k=c['k'], kind=c['kind'], mode=c['mode'], out=c.get('out', 'ok'), showat=c.get('showat', 0))
+        case = dict(p=0, k=c['k'], kind=c['kind'], mode=c['mode'], out=c.get('out', 'ok'), showat=c.get('showat', 0), waitat=c.get('waitat', 0))
         rs, loaded, orc = evaluate(impl, base, [case], [prog], 'replay')
         fails, obs = analyse(rs[0], loaded[0], prog, orc[(0, c['k'], c['kind'], case['out'])], None)
         fails = [dict(why=f[0], finding=f[1]) for f in fails]
